@@ -256,6 +256,43 @@ type QUICRandomFrames struct {
 	Length uint16 // 2 bytes, max 65535
 }
 
+// maxCount is the largest value cryptoSafeRandUint64(min, max) can return: max is
+// exclusive, and a degenerate range means the fixed value min.
+func maxCount(min, max uint8) int {
+	if max <= min {
+		return int(min)
+	}
+	return int(max) - 1
+}
+
+// maxCryptoData returns how many bytes of CRYPTO data, starting at stream offset
+// baseOffset, the builder can always lay out within Length: for every draw of its PING and
+// CRYPTO frame counts the frames then total at most Length-MinPADDING bytes, so that PADDING
+// brings them to exactly Length. It returns 0 if not even one byte fits. [UQUIC]
+func (qrf *QUICRandomFrames) maxCryptoData(baseOffset uint64) int {
+	length := uint64(qrf.Length)
+	// type byte + offset + length of one CRYPTO frame, for the widest offset and length any
+	// frame of this datagram can have
+	perFrame := 1 + quicvarint.Len(baseOffset+length) + quicvarint.Len(length)
+	n := int(qrf.Length) - maxCount(qrf.MinPING, qrf.MaxPING) - int(qrf.MinPADDING) -
+		max(maxCount(qrf.MinCRYPTO, qrf.MaxCRYPTO), 1)*perFrame
+	return max(n, 0)
+}
+
+// randomFramesForDatagram returns the QUICRandomFrames that builds Initial datagram idx
+// when fb is one (or a QUICMultiDatagramFrames, which selects one per datagram), else nil.
+func randomFramesForDatagram(fb QUICFrameBuilder, idx int) *QUICRandomFrames {
+	switch fb := fb.(type) {
+	case *QUICRandomFrames:
+		return fb
+	case *QUICMultiDatagramFrames:
+		if fb != nil && len(fb.PerDatagram) > 0 {
+			return &fb.PerDatagram[min(max(idx, 0), len(fb.PerDatagram)-1)]
+		}
+	}
+	return nil
+}
+
 // Build ingests data from crypto frames without the crypto frame header
 // and returns the byte representation of all frames as specified in
 // the slice. Equivalent to BuildForDatagram(0, cryptoData, 0).
